@@ -1,2 +1,76 @@
+"""C02, MC + S->C: Metric.tla theorems and the lattice replay of the real calcMetric."""
+import json
+import os
+import shutil
+
+from .. import tlc
+from ..core import PY, VERIF, MachineryError, repo_env, run_group, scratch
+
+COMP = {"g11": ("con", "g11"), "g22": ("con", "g22"), "g33": ("con", "g33"), "g12": ("con", "g12"), "g13": ("con", "g13"), "g23": ("con", "g23"),
+        "g_11": ("cov", "g_11"), "g_22": ("cov", "g_22"), "g_33": ("cov", "g_33"), "g_12": ("cov", "g_12"), "g_13": ("cov", "g_13"), "g_23": ("cov", "g_23")}
+
+
+def fr(q):
+    return q[0] / q[1]
+
+
 def run(v, tier, seed):
-    pass
+    res = tlc.run_tlc("MC_Metric", "MC_Metric.cfg", workers=8, timeout=1200, check=False)
+    v.add_tlc(res)
+    if not res.ok:
+        if res.violated:
+            v.violation("C02 engine=mc violated=%s" % res.violated, "TLC: theorem %s of Metric.tla fails" % res.violated, {"tlc_tail": res.out[-2500:]})
+        else:
+            v.fail_machinery("MC_Metric did not finish: " + res.out[-1200:])
+        return
+    em = tlc.run_tlc("MC_Metric", "MC_Metric_emit.cfg", workers=1, timeout=1200, check=False)
+    vals = tlc.extract_prints(em.out, "PT")
+    pts = {}
+    for val in vals:
+        _, pt, con, cov, jac, dphidy = val
+        key = json.dumps({k: list(pt[k]) if isinstance(pt[k], tuple) else pt[k] for k in sorted(pt)}, sort_keys=True)
+        pts[key] = (pt, con, cov, jac, dphidy)
+    if len(pts) != res.distinct:
+        raise MachineryError("emitted %d lattice points, TLC checked %d" % (len(pts), res.distinct))
+    plist = []
+    for n, (key, (pt, con, cov, jac, dphidy)) in enumerate(sorted(pts.items())):
+        plist.append({"id": n, "R": fr(pt["R"]), "Bpa": fr(pt["Bpa"]), "Bt": fr(pt["Bt"]), "hy": fr(pt["hy"]), "c": fr(pt["c"]), "s": fr(pt["s"]),
+                      "sigma": pt["sigma"], "_exp": {"con": {k: fr(con[k]) for k in con}, "cov": {k: fr(cov[k]) for k in cov}, "J": fr(jac)},
+                      "_pt": {k: (list(pt[k]) if isinstance(pt[k], tuple) else pt[k]) for k in pt}})
+    d = scratch("c02m")
+    inp, outp = os.path.join(d, "pts.json"), os.path.join(d, "out.json")
+    with open(inp, "w") as fh:
+        json.dump([{k: p[k] for k in p if not k.startswith("_")} for p in plist], fh)
+    rc, out, err = run_group([PY, "-B", os.path.join(VERIF, "harness/drivers/metric_replay.py"), inp, outp], timeout=600, env=repo_env())
+    if rc != 0 or not os.path.exists(outp):
+        raise MachineryError("metric_replay failed rc=%s\n%s" % (rc, (out + err)[-2000:]))
+    with open(outp) as fh:
+        recs = json.load(fh)
+    shutil.rmtree(d, ignore_errors=True)
+    ncmp = 0
+    nref = 0
+    for r in recs:
+        p = plist[r["id"]]
+        v.add_case("metric lattice point %s orthogonal=%s" % (json.dumps(p["_pt"], sort_keys=True), r["orthogonal"]))
+        if "error" in r:
+            nref += 1
+            # the run-time Jacobian guard refused: an explicit error, but it must not refuse the correct closed forms
+            v.violation("C02 engine=metric-replay comp=refused orth=%s sigma=%d" % (r["orthogonal"], p["sigma"]),
+                        "calcMetric raised on a lattice point: %s (%s)" % (r["error"], p["_pt"]), {"point": p["_pt"], "orthogonal": r["orthogonal"]})
+            continue
+        for comp, (kind, name) in list(COMP.items()) + [("J", ("J", "J"))]:
+            exp = p["_exp"]["J"] if comp == "J" else p["_exp"][kind][name]
+            for loc in ("centre", "ylow", "xlow"):
+                got = r[comp][loc]
+                ncmp += 1
+                if abs(got - exp) > 1e-12 * max(1.0, abs(exp)):
+                    what = "sign" if abs(got + exp) <= 1e-12 * max(1.0, abs(exp)) else "value"
+                    v.violation("C02 engine=metric-replay comp=%s orth=%s sigma=%d beta=%s diff=%s" % (comp, r["orthogonal"], p["sigma"], "0" if p["s"] == 0 else "nonzero", what),
+                                "real calcMetric %s at %s = %r, Metric.tla gives %r for %s (orthogonal=%s)" % (comp, loc, got, exp, p["_pt"], r["orthogonal"]),
+                                {"point": p["_pt"], "orthogonal": r["orthogonal"], "component": comp, "impl": got, "spec": exp})
+                    break
+    v.add_eval(ncmp)
+    v.add_traces(len(recs))
+    v.note("metric_replay", {"lattice_points": len(plist), "calcMetric_runs": len(recs), "values_compared": ncmp, "refused": nref})
+    if plist:
+        v.sample({"engine": "S->C calcMetric", "point": plist[len(plist) // 2]["_pt"], "expected": plist[len(plist) // 2]["_exp"]})
